@@ -35,6 +35,9 @@ def ensure_setting(L, dim=3):
         return
     setting.reset()
     hypercubic_setting.HypercubicSetting(beta=1.0, dimension=dim, system_length=L)
+    setting.set_number_of_root_nodes(2)
+    setting.set_number_of_nodes_per_root_node(2)
+    setting.set_number_of_node_levels(1)
     _state["L"] = L
     _state["dim"] = dim
     for key in [k for k in _cache if k[0] in ("ipc", "mic", "bend")]:
